@@ -1,9 +1,170 @@
-/- Driver operations for C07 (stub: to be filled by the property's model). -/
+/- Driver operations for the layout calculus (C07). -/
 import PrecondVerif.Kit.Proto
+import PrecondVerif.Model.Layout
 
 namespace PrecondVerif.Drv.C07
-open Lean PrecondVerif.Proto
+open Lean PrecondVerif.Proto PrecondVerif.Shapes PrecondVerif.Layout
 
-def ops : List Op := []
+def svalJson : SVal → Json
+  | .str s => Json.str s
+  | .bool b => Json.bool b
+  | .nat n => toJson n
+  | .nats l => natsToJson l
+
+partial def sigJson : Sig → Json
+  | .leaf shape dt => Json.arr #[Json.str "L", natsToJson shape, Json.str dt]
+  | .spec l => Json.arr #[Json.str "P", Json.arr (l.map Json.str).toArray]
+  | .node k st kids =>
+      Json.arr #[Json.str "N", Json.str k, Json.arr (st.map svalJson).toArray, Json.arr (kids.map sigJson).toArray]
+
+def parsePType (s : String) : R PType :=
+  match s with
+  | "ALL" => .ok .all
+  | "INPUT" => .ok .input
+  | "OUTPUT" => .ok .output
+  | _ => .error s!"bad preconditioner type {s}"
+
+def phaseStr : Phase → String
+  | .construct => "construct" | .init => "init" | .update => "update"
+
+def clsStr : ExcCls → String
+  | .valueError => "ValueError" | .assertionError => "AssertionError" | .notImplemented => "NotImplementedError"
+
+def errJson : Err → Json
+  | .reject ph cls => obj [("kind", "reject"), ("phase", phaseStr ph), ("cls", clsStr cls)]
+  | .internal ph what => obj [("kind", "internal"), ("phase", phaseStr ph), ("what", what)]
+
+def okJson : Json := obj [("kind", "ok")]
+
+def getShapes (j : Json) (k : String) : R (List (List Nat)) := do
+  asListOf (asListOf asNat) (← field j k)
+
+def parseCfg (j : Json) : R Cfg := do
+  pure {
+    blockSize := ← getNat j "block_size"
+    bestEffortShape := ← getBool j "best_effort_shape_interpretation"
+    mergeBlock := ← getNat j "merge_small_dims_block_size"
+    graftHasDiag := ← getBool j "graft_has_diag"
+    batchAxis := ← getBool j "batch_axis"
+    shard := ← getBool j "shard"
+    ndev := ← getNat j "ndev"
+    memReduction := ← getBool j "best_effort_memory_usage_reduction"
+    skipDimGt := ← getNat j "skip_preconditioning_dim_size_gt"
+    skipRankLt := ← getNat j "skip_preconditioning_rank_lt"
+    lobpcgTopk := ← getNat j "lobpcg_topk_precondition"
+    ptype := ← parsePType (← getStr j "precondtioner_type")
+    fdMetrics := ← getBool j "generate_fd_metrics"
+    trainMetrics := ← getBool j "generate_training_metrics"
+    compRank := ← getInt j "compression_rank"
+    fd := ← getBool j "frequent_directions"
+    reset := ← getBool j "reset_preconditioner"
+    avgGrad := ← getBool j "average_grad"
+    reuse := ← getBool j "reuse_preconditioner"
+    eigh := ← getBool j "eigh"
+    statSteps := ← getNat j "statistics_compute_steps"
+    precondSteps := ← getNat j "preconditioning_compute_steps"
+    scheduled := ← getBool j "scheduled" }
+
+def parseGraft (s : String) : R TFGraft :=
+  match s with
+  | "NONE" => .ok .none | "SGD" => .ok .sgd | "RMSPROP" => .ok .rmsprop | "ADAFACTOR" => .ok .adafactor
+  | _ => .error s!"bad graft {s}"
+
+def parseTF (j : Json) : R TFCfg := do
+  let shj := fieldD j "sh" Json.null
+  let skj := fieldD j "sk" Json.null
+  let sh ← if shj.isNull then pure none else do
+    pure (some { blockSize := ← getInt shj "block_size", pf := ← getInt shj "pf", sf := ← getInt shj "sf",
+                 decay := ← getRat shj "decay" : TFShampoo })
+  let sk ← if skj.isNull then pure none else do
+    pure (some { rank := ← getInt skj "rank", updateFreq := ← getInt skj "update_freq", decay := ← getRat skj "decay",
+                 addGgt := ← getBool skj "add_ggt", ekfac := ← getBool skj "ekfac" : TFSketchy })
+  pure {
+    graft := ← parseGraft (← getStr j "graft")
+    graftDecay := ← getRat j "graft_decay"
+    graftEps := ← getRat j "graft_eps"
+    skipGt := ← getNat j "skip_gt"
+    skipRank1 := ← getBool j "skip_rank1"
+    minDimFactor := ← getInt j "min_dim_size_to_factor"
+    clipThreshold := ← getRat j "clipping_threshold"
+    mergeDims := ← getInt j "merge_dims"
+    sketchy := (← getStr j "so_type") == "SKETCHY"
+    sh := sh
+    sk := sk
+    momDecay := ← getRat j "mom_decay"
+    ema := ← getBool j "ema"
+    wd := ← getRat j "wd"
+    wdAfter := ← getBool j "wd_after"
+    lrSched := ← getBool j "lr_schedule" }
+
+def tfSteps (c : TFCfg) : Nat → TFLayout → Except Err TFLayout
+  | 0, L => pure L
+  | k + 1, L => do
+      let L' ← tfStep c L
+      tfSteps c k L'
+
+def sm3Steps (ps : List (List Nat)) : Nat → List SM3Param → Except Err (List SM3Param)
+  | 0, L => pure L
+  | k + 1, L => do
+      let L' ← sm3Step ps L
+      sm3Steps ps k L'
+
+def shardedSteps (c : Cfg) (ps : List (List Nat)) : Nat → ShardedLayout → Except Err ShardedLayout
+  | 0, L => pure L
+  | k + 1, L => do
+      let L' ← shardedStep c ps L
+      shardedSteps c ps k L'
+
+def ops : List Op := [
+  ("ds", fun j => do
+    let c ← parseCfg (← field j "cfg")
+    let ps ← getShapes j "shapes"
+    let k ← getNat j "k"
+    if c.shard then
+      let pspecs ← asListOf (asListOf asStr) (← field j "pspecs")
+      let statSpec ← asListOf asStr (← field j "stat_spec")
+      match shardedInit c ps with
+      | .error e => pure (obj [("outcome", errJson e)])
+      | .ok L =>
+        let declJ := match shapeDtypeDecl c ps with
+          | .ok s => sigJson s
+          | .error e => errJson e
+        let base := [("init_sig", sigJson (shardedSig L)), ("decl_sig", declJ),
+                     ("pspec_sig", sigJson (pspecDecl c ps pspecs statSpec)),
+                     ("update_leaves", listToJson (fun l => sigJson (leafSig l)) (updateShapes c ps))]
+        match shardedSteps c ps k L with
+        | .error e => pure (obj (("outcome", errJson e) :: base))
+        | .ok L' => pure (obj (("outcome", okJson) :: ("post_equal", Json.bool (decide (L' = L))) :: base))
+    else
+      match layoutInit c ps with
+      | .error e => pure (obj [("outcome", errJson e)])
+      | .ok L =>
+        let base := [("init_sig", sigJson (dsSig L)),
+                     ("update_leaves", listToJson (fun l => sigJson (leafSig l)) (updateShapes c ps))]
+        match layoutSteps c ps k L with
+        | .error e => pure (obj (("outcome", errJson e) :: base))
+        | .ok L' => pure (obj (("outcome", okJson) :: ("post_equal", Json.bool (decide (L' = L))) :: base))),
+  ("sm3", fun j => do
+    let ps ← getShapes j "shapes"
+    let k ← getNat j "k"
+    match sm3Init ps with
+    | .error e => pure (obj [("outcome", errJson e)])
+    | .ok L =>
+      let base := [("init_sig", sigJson (sm3Sig L))]
+      match sm3Steps ps k L with
+      | .error e => pure (obj (("outcome", errJson e) :: base))
+      | .ok L' => pure (obj (("outcome", okJson) :: ("post_equal", Json.bool (decide (L' = L))) :: base))),
+  ("tf", fun j => do
+    let c ← parseTF (← field j "cfg")
+    let ps ← getShapes j "shapes"
+    let k ← getNat j "k"
+    match tfInit c ps with
+    | .error e => pure (obj [("outcome", errJson e)])
+    | .ok L =>
+      let base := [("init_sig", sigJson (tfSig c L))]
+      match tfSteps c k L with
+      | .error e => pure (obj (("outcome", errJson e) :: base))
+      | .ok L' => pure (obj (("outcome", okJson) :: ("post_equal", Json.bool (decide (L' = L))) :: base)))
+]
 
 end PrecondVerif.Drv.C07
